@@ -95,6 +95,11 @@ class Gen:
         kinds = ['ap', 'app', 'pp', 'ppp', 'spl', 'splp', 'sub', 'subp', 'trim', 'rev', 'clr', 'spf', 'cmp', 'cmpp',
                  'ncmp', 'ncmpp', 'find', 'findp', 'idx', 'ridx', 'glen', 'gsize', 'slen', 'ssize', 'done', 'dup', 'dupto']
         weights = [8, 8, 6, 6, 8, 8, 5, 4, 4, 4, 2, 2, 5, 4, 4, 3, 5, 4, 6, 6, 1, 1, 1, 0, 1, 2, 2]
+        if big:
+            # the model's byte loops walk a list from its head on every access (quadratic): keep them rare on long buffers
+            weights[kinds.index('rev')] = 0.2
+            weights[kinds.index('idx')] = 1
+            weights[kinds.index('ridx')] = 1
         k = r.choices(kinds, weights)[0]
         if k == 'ap' or k == 'pp':
             t, o = self.other()
@@ -275,12 +280,12 @@ class C07(vlib.PropertyCheck):
     SAN = ('-fsanitize=address,undefined', '-fno-sanitize-recover=all', '-fno-sanitize=nonnull-attribute')
     impl_kwargs = dict(sanitize=False, cflags=SAN, ldflags=('-fsanitize=address,undefined', '-Wl,--wrap=read'))
     case_timeout = 300
-    nontrivial_rule = ('one case = one history (constructor + 0..40 operations); non-trivial when the model does not fault, '
-                       'at least one operation after the constructor returned success and either a boundary value was used '
-                       '(index/count within 2 of 0 or +-len, a size in {0,1,4095,4096,4097,12293}, an absent byte/needle) or the '
-                       'history has >= 3 operations; distinct = distinct case lines')
+    nontrivial_rule = ('one case = one history (constructor + 0..40 operations, or one method on a NULL self); non-trivial when the '
+                       'model does not fault and at least one operation after the constructor produced a result (success, new object, '
+                       'index or comparison value); distinct = distinct case lines.  Index/count arguments are drawn from -len-2..len+2 '
+                       '(exhaustively for len <= 3 resp. 5), sizes from {0,1,small,4095,4096,4097,12293}, bytes from all 256 values')
     assumptions = ['(pointer, length) arguments describe a readable caller block of at least that many bytes, length >= 0',
-                   'cmp_with_ptr / ncmp_with_ptr are called with a count not above the buffer length (the suite itself relies on reads past len)',
+                   'cmp_with_ptr / ncmp_with_ptr: the answer is specified for counts up to the buffer length (any count when size = len); between len and size the code compares spare cells (the unedited suite relies on that), above size it stops at the allocation',
                    'set_len only truncates, set_size is not used to misstate the allocation',
                    'self and other are distinct objects (aliasing and ownership belong to C05/C06)',
                    'object sizes below 2^31; "C" locale; malloc does not fail',
@@ -288,7 +293,24 @@ class C07(vlib.PropertyCheck):
 
     MANIFEST = dict(
         technique='Rocq theorems about an executable Gallina model of src/mbuff.c + extracted-model/implementation correspondence check',
-        text='(filled in below)',
+        text=('Full theorems (Properties/C07.v, all closed under the global context): C07_mbuff_refines - for every constructor '
+              '(new, from_ptr, from_buff, from_fp and from_fd on seekable and non-seekable inputs with an arbitrary read schedule of '
+              'Data/Short/EINTR/EOF/Err events) and EVERY finite operation list inside the caller contracts, by induction over the list: '
+              'the model never faults (C07_mbuff_no_fault), every output and the final bytes/length equal those of the ideal list-of-bytes '
+              'sequence (all 256 values, no terminator) and the invariant NULL/0/0 or 0 <= len <= size = allocation with cells [0,len) '
+              'initialised holds; C07_mbuff_step (one lemma per method: done, dup, append*, prepend*, splice*, subbuff*, trim, reverse, '
+              'clear, sprintf, cmp, ncmp, cmp_with_ptr/ncmp_with_ptr, find*, index, rindex, get_len, set_len); '
+              'C07_mbuff_refused_unchanged / _outside_is_refused (positions outside the sequence leave the object identical); '
+              'C07_mbuff_absent_is_len, _present_position, _find_first (index/rindex/find answers); C07_mbuff_cmp_total_order, '
+              '_cmp_is_lex, _ncmp_is_lex, _cmp_with_ptr_is_lex (unsigned lexicographic total order, proper prefix strictly less; reused by C05); '
+              'C07_mbuff_stream_chunks, _stream_bytes_concat, _ctor (readers deliver the concatenation of the chunks for all lengths, both paths). '
+              'C07_mbuff_cmp_with_ptr_exact_size (counts above the length on an object without spare cells).  Nothing is _partial.  Outside the '
+              'theorems by stated contract: set_size (raw capacity write), cmp_with_ptr/ncmp_with_ptr with a count between len and size (the code '
+              'compares spare cells there; the unedited suite relies on it), set_len used to extend, aliasing self == other, spif_mbuff_show, allocation '
+              'failure, sizes >= 2^31.  Decided by the correspondence check only: that src/mbuff.c is the modelled function (level A: return '
+              'values, len, bytes, size >= len, allocation >= size via __sanitizer_get_allocated_size, sanitizer silence; level B: exact size), '
+              'vsnprintf, the kernel and stdio behaviour behind the read schedules (real pipes and regular files under build/work/c07), and the '
+              'NULL-self answers.  libc (memcpy/memmove/memset/memcmp/memmem with length 0 touch nothing), malloc/realloc/free are modelled, not verified.'),
         design_ref='DESIGN.md section 7, C07')
 
     # ---------------------------------------------------------------------------------
@@ -322,6 +344,10 @@ class C07(vlib.PropertyCheck):
                     ops.append('cmpp:%s:%d' % (hx(b), n))
                     ops.append('ncmpp:%s:%d' % (hx(b), n))
                 cases.append('buff %s:%d:%d %s' % (hx(a), len(a), len(a) + rng.choice([0, 1]), ' '.join(ops[:60])))
+                # an object without spare cells: counts above its length, up to the caller's block
+                if len(b) > len(a):
+                    ops = ['%s:%s:%d' % (o, hx(b), n) for n in range(len(a) + 1, len(b) + 1) for o in ('cmpp', 'ncmpp')]
+                    cases.append('ptr %s:%d %s' % (hx(a), len(a), ' '.join(ops[:60])))
         # 4. searches: every byte value, present and absent, first/last/only position; trim of every short blank pattern
         for c in range(256):
             s = [c ^ 0x55, c, (c + 1) & 255, c]
@@ -348,7 +374,9 @@ class C07(vlib.PropertyCheck):
                     continue
                 s = ','.join(sc) or '-'
                 for api in ('fd', 'fp'):
-                    cases.append('%s P:w:%s glen idx:1 ridx:1' % (api, s))
+                    long_ = len(s) > 2000
+                    tail = 'glen' if (long_ and rng.random() < 0.9) else 'glen idx:1 ridx:1'
+                    cases.append('%s P:w:%s %s' % (api, s, tail))
                     if l <= 2:
                         cases.append('%s R%d:w:%s glen' % (api, rng.choice([0, 0, 2]), s))
         # natural delivery at the chunk boundaries, files read from offset 0, inside and at the end
@@ -357,7 +385,8 @@ class C07(vlib.PropertyCheck):
             for api in ('fd', 'fp'):
                 for kind, pos in (('P', None), ('R', 0), ('R', 1), ('R', 7)):
                     name, args, _ = g.desc(api, bs, natural=True, kind=kind, pos=pos)
-                    cases.append('%s %s glen ridx:%d app:7a:1 rev' % (name, args, bs[-1] if bs else 0))
+                    rev = ' rev' if (n <= 2 or (n == INC + 1 and kind == 'P') or (not quick and pos == 7)) else ''
+                    cases.append('%s %s glen ridx:%d app:7a:1%s' % (name, args, bs[-1] if bs else 0, rev))
                 # positioned at end of file: nothing to read
                 cases.append('%s R%d:n:- glen ap:61+0' % (api, max(n, 1)))
 
@@ -365,22 +394,24 @@ class C07(vlib.PropertyCheck):
         for n in [0, 1] + SIZES_BIG:
             bs = g.bytes_(n)
             absent = [b for b in range(256) if b not in bs][:1] or [0]
-            tail = 'idx:%d ridx:%d findp:%s:2 rev app:%s:%d spl:-1:1:%s+0 trim dupto ap:%s+3 glen' % (
-                absent[0], absent[0], hx([absent[0], absent[0]]), hx(bs[:5] or [1]), len(bs[:5] or [1]), hx(bs[:3]), hx(bs[-4:]))
-            cases.append('ptr %s:%d %s' % (hx(bs), n, tail))
-            cases.append('buff %s:%d:%d %s' % (hx(bs), n, n + rng.choice([0, 1, INC]), tail))
+            tail = 'findp:%s:2 app:%s:%d spl:-1:1:%s+0 trim dupto ap:%s+3 glen' % (
+                hx([absent[0], absent[0]]), hx(bs[:5] or [1]), len(bs[:5] or [1]), hx(bs[:3]), hx(bs[-4:]))
+            scan = 'idx:%d ridx:%d ' % (absent[0], absent[0])
+            rev = 'rev ' if (n <= INC + 1 or not quick) else ''
+            cases.append('ptr %s:%d %s%s%s' % (hx(bs), n, scan, rev, tail))
+            cases.append('buff %s:%d:%d %s%s' % (hx(bs), n, n + rng.choice([0, 1, INC]), scan, tail))
             cases.append('new - app:%s:%d %s' % (hx(bs), n, tail))
             cases.append('new - ppp:%s:%d pp:%s+1 %s' % (hx(bs), n, hx(bs), tail))
 
         # 7. random histories from every constructor
-        nh = 1500 if quick else 60000
+        nh = 5000 if quick else 250000
         for _ in range(nh):
             big = rng.random() < (0.01 if quick else 0.004)
             name, args, s = g.ctor(rng.choice(SIZES_BIG) if big else None)
             nops = rng.choice([1, 2, 3, 5, 8, 13, 21, 40]) if not big else rng.choice([1, 2, 4])
             toks = []
             for _ in range(nops):
-                t, s = g.op(s)
+                t, s = g.op(s, big=len(s) > 1500)
                 toks.append(t)
                 if len(s) > 3 * INC + 600:
                     break
@@ -417,8 +448,42 @@ class C07(vlib.PropertyCheck):
         return len(steps) >= 2 and any(s.startswith('T') or s.startswith('O:') or s.startswith('P:') or s[0] in 'ic' for s in steps[1:])
 
     def extra_steps(self, ctx):
-        # operation histogram of this run (the shared histogram only sees the constructor token)
-        return []
+        # operation / size histograms of this run (the shared histogram only sees the constructor token)
+        path = vlib.os.path.join(vlib.BUILD, 'work', 'c07', 'cases-main.txt')
+        ops, sizes, lens = {}, {}, {}
+        try:
+            with open(path) as f:
+                for line in f:
+                    t = line.split()
+                    if len(t) < 2:
+                        continue
+                    n = len(t[1]) // 2
+                    b = '0' if n < 2 else '1-64' if n <= 64 else '65-4094' if n < 4095 else '4095-4097' if n <= 4100 else '>4097'
+                    sizes[b] = sizes.get(b, 0) + 1
+                    k = len(t) - 2
+                    hb = '0' if k == 0 else '1-3' if k <= 3 else '4-13' if k <= 13 else '14-40' if k <= 40 else '>40'
+                    lens[hb] = lens.get(hb, 0) + 1
+                    for o in t[2:]:
+                        name = o.split(':', 1)[0]
+                        ops[name] = ops.get(name, 0) + 1
+        except OSError:
+            pass
+        ctx['cov']['op_histogram'] = ops
+        ctx['cov']['ctor_arg_size_histogram'] = sizes
+        ctx['cov']['history_length_histogram'] = lens
+        ctx['cov']['exhaustive'] = ('index/count pairs in -len-2..len+2 for splice, splice_from_ptr, subbuff, subbuff_to_ptr on sequences of '
+                                    'length 0..3 (quick) / 0..5 (thorough); cmp/ncmp/cmp_with_ptr on all pairs of sequences over {0,1,255} up to '
+                                    'length 2 (quick) / 3 (thorough); read schedules up to 2 (quick) / 3 (thorough) events over '
+                                    '{D3, S1, D4096, D4097, S4095, EINTR, EOF, Err, D0}; all 256 byte values for index/rindex/find/clear')
+        out = []
+        if ctx['tier'] == 'thorough':
+            # independent re-check of the compiled property file by the stand-alone checker
+            rc, o, e = vlib.sh('cd %s && timeout 900 coqchk -silent -o -Q . LV LV.Properties.C07 2>&1' % vlib.COQ)
+            ok = (rc == 0 and 'Axioms: <none>' in o)
+            ctx['cov']['coqchk'] = dict(cmd='coqchk -silent -o -Q . LV LV.Properties.C07', ok=ok, summary=o[-600:])
+            if not ok:
+                out.append(('B', 'coqchk LV.Properties.C07', 'coqchk does not accept Properties/C07.vo: ' + o[-300:]))
+        return out
 
 
 CHECK = C07()
